@@ -418,7 +418,9 @@ void plain_access(void* p, int sz, bool write, bool is_volatile, void* pc) {
     if (own_stack(a)) return;
     tl_inrt++;
     if (!is_volatile) record_access(a, write);
-    bool pt = is_volatile || (S->use_dpoints && in_D(a));
+    // use_dpoints: 1 = volatile accesses and conflict locations are points (default), 0 = volatile only,
+    //              2 = neither ("sync-only": atomics, locks and yields; a coarser but much smaller schedule space)
+    bool pt = S->use_dpoints == 2 ? false : (is_volatile || (S->use_dpoints && in_D(a)));
     if (pt) {
         point();
         if (write) {
@@ -810,7 +812,7 @@ static void explorer_process(int scenario, int bound, long max_exec, double budg
         if (!complete) { S->capped = 1; merge_conflicts(); break; }
         int before = S->d_count;
         merge_conflicts();
-        if (!dpoints || S->d_count == before) break;
+        if (dpoints != 1 || S->d_count == before) break;
     }
     S->finished = 1;
     _exit(0);
